@@ -4,10 +4,17 @@
    Slicing and multiplication by +-1 are exact in floating point => exact comparison in Q;
    imputation (matrix products) and NNDSVD (sqrt, division) => toleranced. *)
 From Coq Require Import List Arith ZArith QArith Qabs Bool.
+From Coq Require Uint63.
 From TLV Require Import Base.Ops Base.Tensor Model.Svd Corr.Common.
 Import ListNotations.
 
 Definition qmat := list (list Q).
+
+(* literal decoder: a float64 is (-1)^neg * m / 2^e with m < 2^53.  Primitive 63-bit integers are used ONLY to
+   make the generated case files cheap to parse (a decimal Z literal costs ~10x more); the value is a plain Q. *)
+Definition dy (neg : bool) (m e : Uint63.int) : Q :=
+  let z := Uint63.to_Z m in
+  Qred (Qmake (if neg then Z.opp z else z) (Z.to_pos (Z.pow 2 (Uint63.to_Z e)))).
 Fixpoint mat_rel (r : list Q -> list Q -> bool) (a b : qmat) : bool :=
   match a, b with [], [] => true | x :: a', y :: b' => r x y && mat_rel r a' b' | _, _ => false end.
 Definition mat_eqb := mat_rel q_list_eqb.
